@@ -27,6 +27,13 @@ class Tag(object):
 T1, T2, T3 = Tag('T1'), Tag('T2'), Tag('T3')
 
 
+class EqStr(str):
+    """instances compare and hash like the string they hold, yet each is an object of its own"""
+
+
+EQ_A, EQ_B = EqStr('same text'), EqStr('same text')
+
+
 class Box(object):
     """Box[x]: one object per x, like the cached generic aliases of typing (an annotation that is an expression,
     not a bare name: its postponed spelling is a string no two code objects share)."""
@@ -58,7 +65,7 @@ def annotate_params(rnd, params, p=0.6):
         if rnd.random() < p:
             a = rnd.choice(SPELLINGS)
         out.append((n, k, d, a))
-    return tuple(out), (rnd.choice(SPELLINGS) if rnd.random() < 0.5 else None)
+    return tuple(out), (rnd.choice(SPELLINGS + ('None', 'None')) if rnd.random() < 0.5 else None)
 
 
 def build(params, ret, globs, future, name, body='return None', prefix=''):
@@ -277,9 +284,10 @@ def check_annotate(ctx, case_seed):
         return
     chosen = rnd.sample(named, rnd.randint(1, min(2, len(named))))
     # (among the values: strings that read exactly like the source text of an annotation the parameter may already carry)
-    values = {n: rnd.choice((T1, T2, 'a string', 17, ('tuple', 1), None.__class__, 'T', 'U', 'T')) for n in chosen}
+    # (... and values that compare and hash equal to one another without being the same object)
+    values = {n: rnd.choice((T1, T2, 'a string', 17, ('tuple', 1), None.__class__, 'T', 'U', 'T', True, 1.0, EQ_A, EQ_B, None)) for n in chosen}
     use_ret = rnd.random() < 0.5
-    ret = rnd.choice((T3, 'ret', 5))
+    ret = rnd.choice((T3, 'ret', 5, None, EQ_B, 1.0))
     future = rnd.random() < 0.5
     stacked = rnd.random() < 0.4 and any(p[1] == PK for p in params)
     already = set()
